@@ -53,6 +53,16 @@ def main():
         proof = {"ok": False, "theorems": [], "closed": [], "open": {}, "log": repr(ex), "file": mod.PROPS, "failed_stage": "exception"}
     if not proof["ok"]:
         broken.append(("proof:" + proof.get("failed_stage", "?"), proof.get("log", "")[-3000:]))
+    coqchk = None
+    if tier == "thorough" and proof["ok"]:
+        # independent re-check of the property's .vo closure, with the axiom list
+        modname = "Cspuz." + mod.PROPS[:-2].replace("/", ".")
+        rc_, out_ = vlib.sh("timeout 1500 coqchk -o -silent -Q theories Cspuz %s" % modname, cwd=vlib.COQ, timeout=1530)
+        import re as _re
+        m_ = _re.search(r"\* Axioms:(.*?)\n\s*\n\* Constants", out_, flags=_re.S)
+        coqchk = {"rc": rc_, "axioms": (m_.group(1).strip() if m_ else "?"), "tail": out_[-600:] if rc_ != 0 else ""}
+        if rc_ != 0:
+            broken.append(("coqchk", out_[-1500:]))
     if hasattr(mod, "generated_obligations"):
         try:
             mod.generated_obligations(ctx, proof, broken)
@@ -114,7 +124,8 @@ def main():
     vlib.write_evidence(ctx, proof, getattr(mod, "TRUSTED", []), assumptions, nviol,
                         extra_cov={"broken": [b[0] for b in broken],
                                    "known_findings_seen": [v["key"] for v in seen_known],
-                                   "axioms_reported": proof.get("open", {})})
+                                   "axioms_reported": proof.get("open", {}),
+                                   "coqchk": coqchk})
     print("%s %s: theorems %d/%d closed, %d cases (%d distinct non-trivial), %d mismatches, %d violations, %.1fs" % (
         pid, tier, len(proof.get("closed", [])), len(proof.get("theorems", [])), ctx.cases, len(ctx.nontrivial),
         len(ctx.mismatches), nviol, time.time() - ctx.t0))
